@@ -277,6 +277,26 @@ impl<'tcx> Cx<'tcx> {
             if let rustc_middle::mir::interpret::GlobalAlloc::Static(sdid) = self.tcx.global_alloc(prov.alloc_id()) {
                 return J::O(vec![("static", s(did_id(self.tcx, sdid))), ("ty", s(tys))]);
             }
+            // reference to a byte array constant (e.g. the template of format_args!)
+            if let rustc_middle::mir::interpret::GlobalAlloc::Memory(alloc) = self.tcx.global_alloc(prov.alloc_id()) {
+                if let ty::Ref(_, inner, _) = t.kind() {
+                    if let ty::Array(elem, len) = inner.kind() {
+                        if *elem == self.tcx.types.u8 {
+                            if let Some(n) = len.try_to_target_usize(self.tcx) {
+                                let off = _off.bytes() as usize;
+                                let n = n as usize;
+                                if off + n <= alloc.inner().len() {
+                                    let bytes = alloc.inner().inspect_with_uninit_and_ptr_outside_interpreter(off..off + n);
+                                    return J::O(vec![
+                                        ("bytes", J::A(bytes.iter().map(|b| J::I(*b as i128)).collect())),
+                                        ("ty", s(tys)),
+                                    ]);
+                                }
+                            }
+                        }
+                    }
+                }
+            }
         }
         J::O(vec![("opaque", s(format!("{:?}", val))), ("ty", s(tys))])
     }
